@@ -21,7 +21,7 @@ VARIABLES l, bad
 MaxPerClass == 40                            \* unexplained records kept per class
 
 Lines(r) == [i \in 1..Len(r.lines) |-> L(r.lines[i][1], r.lines[i][2], r.lines[i][3], r.lines[i][4])]
-Matches(h, vid, o) == LET x == Expected(h) IN o.kind = x.kind /\ SameFrames(o.frames, x.frames, vid)
+Matches(h, vid, o) == LET x == Expected(h) IN o.kind = x.kind /\ SameFrames(o, x.frames, vid)
 
 Explained(r) == LET h == Lines(r) IN
                 /\ \A k \in 1..Len(r.obs) : Allowed(h, r.vid, r.obs[k])
